@@ -41,6 +41,13 @@ def run(index, rep, tier):
             rep.check(not missing, "R16.6", m.qualname, "caches not dropped when the member states change: %s" % missing, fn_where(m, ws[0].stmt), "%s drops all %d caches" % (m.qualname, len(caches)),
                       "%s (re)defines the member states of a state but leaves the cached %s in place: after the alphabet changes (a state added, tables recompiled) an ambiguity / missing-data symbol keeps the state set of the old alphabet, so cells scored with it force spurious changes and the score is above the minimum" % (m.qualname, ", ".join(missing)))
         rep.floor("R16.6", "functions defining the member states", 2, nw)
+    rep.rule("R16.7", "the state sets are read off the matrix on every call: DiscreteCharacterMatrix.taxon_state_sets_map stores nothing on the matrix (no memo that an in-place cell edit would leave stale)")
+    with rep.section("R16.7"):
+        tsm = index.function("dendropy.datamodel.charmatrixmodel.DiscreteCharacterMatrix.taxon_state_sets_map")
+        ws = [w for w in writes_in(tsm.node) if w.base is not None and norm(w.base) in ("self", "self.__dict__")]
+        ws += [c for c in calls_in(tsm.node) if call_name(c) == "setattr" and c.args and norm(c.args[0]) == "self"]
+        rep.check(not ws, "R16.7", tsm.qualname, "taxon_state_sets_map stores on the matrix", fn_where(tsm, ws[0].stmt if ws and hasattr(ws[0], "stmt") else None), "taxon_state_sets_map writes nothing to self",
+                  "DiscreteCharacterMatrix.taxon_state_sets_map keeps something on the matrix (`%s`): a memo of the state-set map cannot see cells edited in place, so scoring the same matrix object again after changing a cell returns the old score - the score is no longer a function of the tree and matrix passed in" % (norm_stmt(ws[0].stmt)[:60] if ws and hasattr(ws[0], "stmt") else "setattr"))
     fd = index.function(PM + ".fitch_down_pass")
     ps = index.function(PM + ".parsimony_score")
 
